@@ -2,6 +2,7 @@ import Vet.Model.Wire
 import Vet.Model.Commands
 import Vet.Model.Report
 import Vet.Model.Renew
+import Vet.Model.WF
 open Vet Vet.Wire
 
 structure DState where
@@ -165,7 +166,9 @@ def handle (st : DState) (kw : String) (toks : List Nat) : DState × String :=
   | "world" =>
     match run world toks with
     | none => (st, "bad-case")
-    | some w => ({ st with world := some w }, "ok")
+    | some w =>
+      -- only well-formed stores (strictly increasing table keys, as sorted maps give them)
+      if w.store.wf then ({ st with world := some w }, "ok") else (st, "bad-case not-wf")
   | _ =>
     match st.world with
     | none => (st, "bad-case no-world")
